@@ -86,6 +86,7 @@ pub struct Method {
     pub receiver: Receiver,
     pub name: String,
     pub params: Vec<(String, goty::GoType)>,
+    pub ret_ty: Option<goty::GoType>,
     pub body: Block,
 }
 
